@@ -307,7 +307,7 @@ def grid_cases(tier, seed):
 PARTS = [
     Part("grid", "enum", check, cases=grid_cases),
     Part("random", "hyp", check, strategy=lambda tier: case_strategy(tier),
-         examples={"quick": 300, "thorough": 4000}, shards={"quick": 6, "thorough": 16}),
+         examples={"quick": 300, "thorough": 10000}, shards={"quick": 6, "thorough": 16}),
 ]
 
 
